@@ -30,3 +30,7 @@ package caldav
 //@   loop 1 invariant I4: uid == "" ==> (forall j :: 0 <= j && j < #i ==> cuid(cal, j) == "")
 //@   loop 1 invariant I5: uid != "" ==> (exists j :: 0 <= j && j < #i && cuid(cal, j) == uid)
 //@   |   && (forall j :: 0 <= j && j < #i && cuid(cal, j) != "" ==> cuid(cal, j) == uid)
+
+//@ -- C16 / C08: iCalendar "date with UTC time" (RFC 5545 section 3.3.5), any zone in, UTC to the second out (T-time)
+//@ func caldav.verifDateWithUTCTimeRoundTrip(t) (r, err)
+//@   ensures RT: err == nil && r.ns == truncSec(t.ns)
